@@ -74,8 +74,11 @@ def run(ctx):
     else:
         cases = gen_cases(ctx, 4000 if ctx.quick() else 60000)
     impl = ctx.harness('retry', [f'{mn} {mx} {ops}' for mn, mx, ops in cases], shards=8)
-    both = ctx.coq_eval(['Base.Show', 'Model.Retry', 'Spec.RetrySpec'], FN, [to_coq(c) for c in cases],
-                        case_type='N * N * list op', preamble='Local Open Scope string_scope.', per_shard=500)
+    # evaluated in batches of 8000 so that at most 16 coqc processes of 500 cases each run at a time (bounded memory)
+    both = []
+    for k in range(0, len(cases), 8000):
+        both += ctx.coq_eval(['Base.Show', 'Model.Retry', 'Spec.RetrySpec'], FN, [to_coq(c) for c in cases[k:k + 8000]],
+                             case_type='N * N * list op', preamble='Local Open Scope string_scope.', per_shard=500)
     n_model_mismatch = n_spec_mismatch = 0
     classes = {'in_domain': 0, 'min>max': 0, 'overflow_region': 0, 'panic': 0, 'capped': 0, 'reset_used': 0}
     for c, i in zip(cases, impl):
@@ -130,6 +133,7 @@ def task_cases(ctx, n):
     certs = os.path.join(vlib.REPO, 'certs', 'ca_chain')
     cases = [('tcp', 20, 70, 'rrrrcsr'), ('tcp', 20, 70, 'crcr'), (f'tls:{certs}', 20, 70, 'rcrcr'), ('tcp', 10, 10, 'rrs'), ('tcp', 20, 70, 's'),
              ('tcp', 20, 70, 'rrrrrr'), (f'tls:{certs}', 15, 100, 'cccc'), ('tcp', 5, 40, 'rrrrsrrrr'),
+             ('tcp', 20, 70, 'drr'), ('tcp', 20, 70, 'rdcdr'), ('tcp', 15, 100, 'ddd'),
              ('rtu', 20, 70, 'rrror'), ('rtu', 20, 70, 'oro'), ('rtu', 10, 40, 'rrrrr'), ('rtu', 20, 70, 'o'),
              ('rtuserver', 20, 70, 'rrror'), ('rtuserver', 20, 70, 'oro'), ('rtuserver', 10, 40, 'rrrrr'), ('rtuserver', 20, 70, 'o')]
     while len(cases) < n:
@@ -140,7 +144,7 @@ def task_cases(ctx, n):
         if w > 0.7:
             cases.append(('rtu' if w > 0.85 else 'rtuserver', mn, mx, ''.join(r.choices('ro', weights=(5, 2), k=ln))))
             continue
-        script = ''.join(r.choices('rc' if tls else 'rcs', weights=(5, 2) if tls else (5, 1, 2), k=ln))
+        script = ''.join(r.choices('rc' if tls else 'rcsd', weights=(5, 2) if tls else (5, 1, 2, 1), k=ln))
         cases.append((f'tls:{certs}' if tls else 'tcp', mn, mx, script))
     return cases
 
@@ -150,7 +154,10 @@ def task_to_coq(c):
     tls = variant.startswith('tls')
     evs, ops = [], []
     for ch in script:
-        if ch == 'r' or (tls and ch == 'c'):
+        if ch == 'd':
+            evs += ['AttemptFails', 'Interrupt']    # refused; the wait is abandoned by disable + enable
+            ops += ['Fail']
+        elif ch == 'r' or (tls and ch == 'c'):
             evs += ['AttemptFails', 'Elapsed']      # refused, or the TLS handshake fails: a failed connect
             ops += ['Fail']
         else:
@@ -188,7 +195,7 @@ def task_judge(i, b):
     """None, or (key, description)"""
     model, armed, spec = b.split('|')
     fields = [f for f in i.split(',') if f]
-    if any(not f or f[0] not in 'FD' or f[-1] not in '+-?' for f in fields):
+    if any(not f or f[0] not in 'FD' or f[-1] not in '+-?i' for f in fields):
         return ('task.unusable-result', f'harness result {i}')
     values = ','.join(f[1:-1] for f in fields)
     kinds = ','.join(f[:-1] for f in fields)
@@ -216,6 +223,17 @@ def run_task_level(ctx):
         return
     else:
         cases = task_cases(ctx, 48 if ctx.quick() else 400)
+        n_exhaustive = 0
+        if not ctx.quick():
+            # thorough: additionally ALL connect-outcome sequences of length <= 4 for every task variant (20/70 ms)
+            import itertools
+            certs = os.path.join(vlib.REPO, 'certs', 'ca_chain')
+            for variant, letters in (('tcp', 'rcs'), (f'tls:{certs}', 'rc'), ('rtu', 'ro'), ('rtuserver', 'ro')):
+                for ln in (1, 2, 3, 4):
+                    for sc in itertools.product(letters, repeat=ln):
+                        cases.append((variant, 20, 70, ''.join(sc)))
+                        n_exhaustive += 1
+        ctx.coverage['task_level_exhaustive_sequences_up_to_length_4'] = n_exhaustive
     impl, both = task_eval(ctx, cases)
     bad = 0
     for c, i, b in zip(cases, impl, both):
@@ -239,10 +257,12 @@ def run_task_level(ctx):
                       {'task_cases': [list(small)], 'impl': im[0], 'model|spec': bo[0], 'original_case': list(c)},
                       no_failing_input=(key == 'task.model-differs-from-impl'))
     ctx.oblige('correspondence:task-level-delays', bad == 0, f'{bad} of {len(cases)} scenarios differ')
-    tcls = {'tcp': 0, 'tls': 0, 'rtu': 0, 'rtuserver': 0, 'rtuserver_followed_script': 0, 'with_port_opened': 0, 'with_served': 0, 'with_accept_close': 0, 'three_refused_in_a_row': 0, 'capped': 0, 'announcements': 0}
+    tcls = {'with_disable_during_wait': 0, 'wait_abandoned_by_disable': 0, 'tcp': 0, 'tls': 0, 'rtu': 0, 'rtuserver': 0, 'rtuserver_followed_script': 0, 'with_port_opened': 0, 'with_served': 0, 'with_accept_close': 0, 'three_refused_in_a_row': 0, 'capped': 0, 'announcements': 0}
     for c, i in zip(cases, impl):
         tcls['tls' if c[0].startswith('tls') else c[0]] += 1
         tcls['with_port_opened'] += 'o' in c[3]
+        tcls['with_disable_during_wait'] += 'd' in c[3]
+        tcls['wait_abandoned_by_disable'] += any(f.endswith('i') for f in i.split(','))
         tcls['rtuserver_followed_script'] += c[0] == 'rtuserver' and actual_case(c, i)[3] == c[3]
         tcls['with_served'] += 's' in c[3]
         tcls['with_accept_close'] += 'c' in c[3]
